@@ -45,6 +45,14 @@ def generate(rng, tier):
     n = rng.choice([1, 2, 3, 4, 6])
     svcs = gen_services(rng, n, types=types[:rng.choice([1, 2, 2])], hosts=["hosta.local.", "HostB.local."],
                         custom_ttl=True, case_mix=True)
+    if rng.random() < 0.35:
+        # the usual case on a real machine: its services share its addresses (some of them have the IPv6 one as well)
+        by_host = {}
+        for s in svcs:
+            first = by_host.setdefault(s["server"].lower(), s)
+            if first is not s:
+                v4 = [a for a in first["addrs"] if ":" not in a][:1]
+                s["addrs"] = v4 + [a for a in s["addrs"] if ":" in a] if v4 else s["addrs"]
     for s in svcs:
         if rng.random() < 0.2:
             s.pop("server")  # ServiceInfo without server=: the library fills in the instance name
